@@ -562,3 +562,8 @@ mod tests {
         assert_eq!(b.gf_mul(&b.gf_mul(&b)), b.gf_pow(3));
     }
 }
+
+#[cfg(feature = "__verif")]
+pub(crate) fn scalar_clmul128(a: u128, b: u128) -> (u128, u128) {
+    scalar::clmul128(a, b)
+}
